@@ -172,16 +172,18 @@ func (ln *vfC05LiveNode) handler(nc *vfNodeConn, f *vfFrame, q *vfRequest) bool 
 	return false
 }
 
-func vfC05LiveWaits(pos string) time.Duration {
+// vfC05LiveWaits: how long the case lets the session run before it looks at it again.  For the
+// heartbeat positions the clock that matters is the driver's (first heartbeat a second after a
+// connection is set up): the case waits until the node has SEEN that request (at most max) and
+// then a little for the driver to digest the answer.
+func vfC05LiveWaits(pos string) (fixed, max time.Duration) {
 	switch pos {
-	case "pool.heartbeat", "ctl.conn_heartbeat":
-		return 1500 * time.Millisecond
-	case "ctl.heartbeat":
-		return 1900 * time.Millisecond
+	case "pool.heartbeat", "ctl.conn_heartbeat", "ctl.heartbeat":
+		return 400 * time.Millisecond, 8 * time.Second
 	case "unsolicited.event", "unsolicited.stream0", "unsolicited.unused_stream":
-		return 1400 * time.Millisecond // event debounce (1 s) and what the handlers then do
+		return 1500 * time.Millisecond, 0 // event debounce (1 s) and what the handlers then do
 	}
-	return 0
+	return 0, 0
 }
 
 func vfC05RunLive(in *vfC05Input) vfC05Result {
@@ -297,7 +299,15 @@ func vfC05RunLive(in *vfC05Input) vfC05Result {
 		ln.hits++
 		ln.mu.Unlock()
 	}
-	if w := vfC05LiveWaits(c.Pos); w > 0 {
+	if w, max := vfC05LiveWaits(c.Pos); w > 0 {
+		for end := time.Now().Add(max); time.Now().Before(end); time.Sleep(20 * time.Millisecond) {
+			ln.mu.Lock()
+			hit := ln.hits > 0
+			ln.mu.Unlock()
+			if hit {
+				break
+			}
+		}
 		time.Sleep(w)
 		// the session must still answer (or fail cleanly) afterwards
 		res.Obs = append(res.Obs, vfC05Guard("app-query-after", false, ops[0].fn))
